@@ -21,7 +21,7 @@ from .c05 import canon
 ID = "C13"
 LEVEL = "exploration"
 RULE = (
-    "callee shapes (1-4 parameters, each without default or with a default from {None,0,1,False,True,'','x',0.0,(),[1]}) "
+    "callee shapes (1-4 parameters named a,b,c,d / value,factor,offset,base / z,y,x,w, each without default or with a default from {None,0,1,False,True,'','x',0.0,(),[1]}) "
     "x a base binding and its single-parameter variations x all spellings (positional prefix + keywords in every order, "
     "defaults omitted or passed explicitly) x {direct dds.keep(path, f, values), dds.keep with literals inside a function "
     "evaluated by dds.eval}; shapes with <=2 parameters are enumerated exhaustively over the value set. Signatures are "
@@ -281,6 +281,10 @@ def exhaustive_cases(tier):
             if db is not NO:
                 bs.append({"a": va, "b": db})
             cases.append(mk_case(["a", "b"], {"a": da, "b": db}, bs))
+            if len(cases) % 3 == 0:
+                # the same shape with parameter names whose alphabetical order is not the declared one
+                ren = {"a": "value", "b": "factor"}
+                cases.append(mk_case(["value", "factor"], {"value": da, "factor": db}, [{ren[k]: v for k, v in b.items()} for b in bs]))
     return cases
 
 
@@ -299,7 +303,8 @@ def case_strategy():
     @st.composite
     def gen(draw):
         n = draw(st.integers(1, 4))
-        params = ["a", "b", "c", "d"][:n]
+        # (the declared order of the parameters is not always the alphabetical order of their names)
+        params = draw(st.sampled_from([["a", "b", "c", "d"], ["value", "factor", "offset", "base"], ["z", "y", "x", "w"]]))[:n]
         ndef = draw(st.integers(0, n))
         defaults = {}
         for i, p in enumerate(params):
